@@ -200,10 +200,10 @@ type l2env struct {
 
 func setupL2(c Case, withFaults bool) *l2env {
 	w := newWorld(c)
-	w.m.Cap = 400
-	if c.Op == "image-copy" {
-		w.m.Cap = 1500
-	}
+	// count bound of clause (2). A server may legitimately accept one byte per PATCH (the
+	// largest blob any operation pushes is the ~500 byte placeholder config of a tag delete),
+	// so the cap is far above that; endless loops reach it in well under a second.
+	w.m.Cap = 3000
 	p := c.P
 	ct := makeContent(p)
 	for _, b := range [][]byte{ct.cfg, ct.cfg2, ct.layer1, ct.layer2, ct.empty, ct.newBlob} {
@@ -239,7 +239,7 @@ func setupL2(c Case, withFaults bool) *l2env {
 	}
 	dI, dM := c.delays()
 	hosts := []config.Host{}
-	for _, h := range configHosts(c) {
+	for _, h := range configHosts(c, 100) {
 		hosts = append(hosts, *h)
 	}
 	sort.Slice(hosts, func(i, j int) bool { return hosts[i].Name < hosts[j].Name })
@@ -642,7 +642,18 @@ func runL2(c Case, ev *evid.Collector) (vs []*evid.Violation, inconclusive strin
 		}
 		return vs, ""
 	}
+	// a fault on the first page of the referrers API (sent with "ignore errors": never retried) that
+	// makes the client fall back to the tag scheme and return an incomplete answer is one root cause
+	refProbe := false
+	for _, e := range es {
+		if e.Class == "referrers" && e.Fault != "" && !strings.Contains(e.RawQuery, "page=") && w.classify(e).kind == "transient" {
+			refProbe = true
+		}
+	}
 	switch {
+	case refProbe && ra.err == nil && (ra.out != rb.out || ra.state != rb.state):
+		add(evid.V("referrers-request-fault-not-retried-result-incomplete", "%s: %d transient faults (limit %d), one of them on a referrers API request; the operation returns nil but its result differs from the fault free run: returned %q, fault free %q\nfaulty:\n%sfault free:\n%s%s",
+			c.Op, f, c.Limit, ra.out, rb.out, ra.state, rb.state, dumpLog(es)))
 	case ra.err != nil:
 		add(evid.V("transient-faults-below-limit-not-absorbed", "%s: %d transient faults were delivered (limit %d, %d mirrors), the fault free run succeeds, the faulty run fails: %v\n%s", c.Op, f, c.Limit, len(c.Mirrors), ra.err, dumpLog(es)))
 	case ra.out != rb.out:
